@@ -194,7 +194,7 @@ theorem nbInv_stepM (s s' : St) (v : Variant) (h : NBInv s) (hs : stepM s v = so
   all_goals (first
     | (apply nb_mpc_quiet s _ h <;> first
         | (simp; done)
-        | exact quiet_mAdd _ | exact quiet_mAfterItem _ | exact quiet_mDropRef _ | exact quiet_mRespawnCheck _
+        | exact quiet_mAdd _ | exact quiet_mAddF _ | exact quiet_mAfterItem _ | exact quiet_mDropRef _ | exact quiet_mRespawnCheck _
         | exact quiet_mJoinStart _ | exact quiet_mSpawnLoop _ | exact quiet_mJoinClose _ | exact quiet_mJoinLoop _ _ _ _
         | exact quiet_mRelExitNext _ _ _ | exact quiet_mAliveNext _ _ _ _ _ _ | exact quiet_mAfterPut _ _ _ _ _
         | exact quiet_of_simple rfl (fun _ => rfl) (by simp)
